@@ -272,6 +272,11 @@ fn merge(a: &mut Local, b: Local) {
 
 /// Run a history on a scripted writer; returns (call results, ops at the start of each call, output).
 fn mux_scripted(ctl: &Ctl, seed: u64, movie: &MovieSpec, hist: &[Op]) -> (Vec<std::result::Result<mp4::Result<()>, String>>, Vec<u64>, Option<Vec<u8>>) {
+    mux_scripted_opt(ctl, seed, movie, hist, true)
+}
+
+/// `stop_on_failure = false`: the caller carries on after a failed call (every later call is still made).
+fn mux_scripted_opt(ctl: &Ctl, seed: u64, movie: &MovieSpec, hist: &[Op], stop_on_failure: bool) -> (Vec<std::result::Result<mp4::Result<()>, String>>, Vec<u64>, Option<Vec<u8>>) {
     let mut results = vec![];
     let mut starts = vec![];
     starts.push(ctl.ops.get());
@@ -297,7 +302,7 @@ fn mux_scripted(ctl: &Ctl, seed: u64, movie: &MovieSpec, hist: &[Op]) -> (Vec<st
         let r = guard(|| wr.add_track(&tc));
         let failed = !matches!(r, Ok(Ok(())));
         results.push(r);
-        if failed {
+        if failed && stop_on_failure {
             return (results, starts, None);
         }
     }
@@ -314,7 +319,7 @@ fn mux_scripted(ctl: &Ctl, seed: u64, movie: &MovieSpec, hist: &[Op]) -> (Vec<st
         let r = guard(|| wr.write_sample(op.track, &s));
         let failed = !matches!(r, Ok(Ok(())));
         results.push(r);
-        if failed {
+        if failed && stop_on_failure {
             return (results, starts, None);
         }
     }
@@ -328,6 +333,35 @@ fn mux_scripted(ctl: &Ctl, seed: u64, movie: &MovieSpec, hist: &[Op]) -> (Vec<st
     starts.push(ctl.ops.get());
     let out = wr.into_writer().data;
     (results, starts, Some(out))
+}
+
+/// For C17 ("no call of any sequence panics"): every muxing history of the fault sweep with one write/seek failure at
+/// every stream-call index, the caller carrying on with the remaining calls.  Returns (cases run, descriptions of the
+/// cases in which a call AFTER the failed one panicked).
+pub fn calls_after_stream_failure(tier: Tier, seed: u64) -> (u64, Vec<Value>) {
+    let mut bad = vec![];
+    let mut n = 0u64;
+    for (name, movie, hist) in writer_histories(tier) {
+        let ctl0 = Ctl::new();
+        ctl0.kinds_on.set(true);
+        let _ = mux_scripted(&ctl0, seed, &movie, &hist);
+        let calls = ctl0.kinds.borrow().clone();
+        for k in 0..calls.len() {
+            for d in faults_for(calls[k].0) {
+                let ctl = Ctl::new();
+                ctl.plan.borrow_mut().push((k as u64, d));
+                let (r, _, _) = mux_scripted_opt(&ctl, seed, &movie, &hist, false);
+                n += 1;
+                let first_fail = r.iter().position(|x| !matches!(x, Ok(Ok(()))));
+                if let Some(f) = first_fail {
+                    if let Some((j, p)) = r.iter().enumerate().skip(f + 1).find_map(|(j, x)| x.as_ref().err().map(|p| (j, p.clone()))) {
+                        bad.push(json!({"engine": "calls_after_stream_failure", "history": name, "config": movie.to_json(), "ops": hist_json(&hist), "stream_call": k, "fault": d.name(), "failed_call_index": f, "panicking_call_index": j, "panic": short_loc(&p)}));
+                    }
+                }
+            }
+        }
+    }
+    (n, bad)
 }
 
 fn writer_histories(tier: Tier) -> Vec<(String, MovieSpec, Vec<Op>)> {
